@@ -75,6 +75,16 @@ CLAIMS = {
          "RFC 8259 pushdown automaton for nesting (coupling of the event stack with the automaton's stack), exact lexeme spans and pairing, tree equality with an "
          "independent decoder, Len().",
          "5 C12", "weakest-precondition VCs over go/ssa + SMT; function-type contract instantiated per state function"),
+ "C10": ("Partial (the aliasing half). The eight functions that take a buffer from a process-wide sync.Pool (exampleBuilder.buildExampleForObjectNode/"
+         "ArrayNode and Build/buildObjectKey/buildExampleForMixedValueNode, the four legacy buildExample* functions, Enum/ArrayItems/ObjectProperties/"
+         "AllOf.MarshalJSON) are proved, for all node trees and all pool histories, never to return a slice whose backing array belongs to the "
+         "buffer-pool subsystem (ghost sets of pool buffers and pool arrays that only grow by fresh objects; Bytes() aliases the buffer's array; "
+         "nested calls and encoding/json.Marshal may use the pools arbitrarily), to put back only buffers that came out of a pool, and to leave every "
+         "byte array outside the subsystem unchanged; loader.reset is proved to clear every field and the deferred closure of LoadSchemaWithoutCompile "
+         "to put the loader back only in the cleared state. Assumed: the sync.Pool / bytes.Buffer model, schema source bytes are not pool arrays, "
+         "Ref.MarshalJSON (trusted). Not decided: history independence of whole results (same answer after any sequence of other inputs), "
+         "immutability of returned ASTs and of the shared virtual 'any' node.",
+         "5 C10", "weakest-precondition VCs over go/ssa + SMT; ghost ownership sets for the buffer pools"),
 }
 
 NOT_APPLICABLE = {
